@@ -5,7 +5,7 @@ from itertools import product
 
 import numpy as np
 
-from sympy import Abs, S, cacheit
+from sympy import Abs, S, Dummy, cacheit
 from sympy import Indexed, Matrix, ImmutableDenseMatrix
 from sympy import expand
 from sympy.core import Basic, Symbol
@@ -274,6 +274,33 @@ def _restrict_to_side(side, expr):
     return expr.func(*args)
 
 #==============================================================================
+def _reverse_normal_vector(expr):
+    """
+    Replace every normal vector nn of an expression by -nn, also where only its
+    components nn[i] occur.
+
+    Parameters
+    ----------
+    expr : sympy.Expr
+        Expression over a boundary or an interface.
+
+    Returns
+    -------
+    sympy.Expr
+        The expression with the reversed normal vector.
+
+    """
+    # ... a component nn[i] becomes -nn[i] (Indexed does not accept -nn as a base)
+    components = [a for a in expr.atoms(Indexed) if isinstance(a.base, NormalVector)]
+    components = {a: Dummy() for a in components}
+    expr       = expr.xreplace(components)
+
+    for nn in expr.atoms(NormalVector):
+        expr = expr.replace(nn, -nn)
+
+    return expr.xreplace({d: -a for a, d in components.items()})
+
+#==============================================================================
 def _split_expr_over_interface(expr, interface, tests=None, trials=None):
     """
     Splits an expression defined on an interface, into
@@ -399,8 +426,7 @@ def _split_expr_over_interface(expr, interface, tests=None, trials=None):
                     mapping = list(mapping)[0]
                     newexpr = newexpr.subs(mapping, mapping.plus)
 
-                for nn in newexpr.atoms(NormalVector):
-                    newexpr = newexpr.replace(nn, -nn)
+                newexpr = _reverse_normal_vector(newexpr)
 
                 if not is_zero(newexpr):
                     if interface.plus in bnd_expressions:
@@ -477,8 +503,7 @@ def _split_expr_over_interface(expr, interface, tests=None, trials=None):
                 mapping = list(mapping)[0]
                 newexpr = newexpr.subs(mapping, mapping.plus)
 
-            for nn in newexpr.atoms(NormalVector):
-                newexpr = newexpr.replace(nn, -nn)
+            newexpr = _reverse_normal_vector(newexpr)
 
             if not is_zero(newexpr):
                 if interface.plus in bnd_expressions:
